@@ -217,11 +217,10 @@ def report_violation(pid, tier, seed, item, budget_s, repo) -> dict:
             def still_fails(cand):
                 res = cell.exec_case(pid, cand, tolerant=True)
                 return any(v["clause"] == clause for v in res["violations"])
-            if still_fails(case):  # the explicit case must fail by itself before we shrink it
-                extra = getattr(runner.prop_module(pid), "shrink_extra", None)
-                case, min_steps, hit_budget = shrink.minimise(case, still_fails, budget_s, extra)
-            else:
+            if not still_fails(case):  # the explicit (narrowed) case must fail by itself; else keep the whole run
                 case = msg["case"]
+            extra = getattr(runner.prop_module(pid), "shrink_extra", None)
+            case, min_steps, hit_budget = shrink.minimise(case, still_fails, budget_s, extra)
         finally:
             cell.close()
         # final replay in a fresh interpreter with the recorded hash seed and environment
